@@ -408,12 +408,12 @@ def build_jobs(chk, layouts, lists, names, scratch):
     for n, case in enumerate(layouts):
         r = random.Random("%d:multi:%d" % (chk.seed, n))
         add({"kind": "sel", "mode": "multi", "cases": [case], "rel": n % 2 == 0,
-             "runs": multi_runs(case, r, 6 if quick else 14, 1)})
+             "runs": multi_runs(case, r, 6 if quick else 10, 1)})
     small = [c for c in layouts if c["last"] <= (7 if quick else 9)]
     for case in (small[:40] if quick else small):
         add({"kind": "sel", "mode": "multi", "cases": [case], "rel": False, "runs": all_pairs_runs(case)})
     # 3. several files
-    for n in range(150 if quick else 4000):
+    for n in range(150 if quick else 1500):
         cs = [rnd.choice(layouts) for _ in range(rnd.choice([2, 2, 3]))]
         r = random.Random("%d:files:%d" % (chk.seed, n))
         add({"kind": "sel", "mode": "files", "cases": cs, "rel": n % 2 == 1, "runs": files_runs(cs, r, 4)})
@@ -443,7 +443,23 @@ def signature(clause, job, row, n):
     if job["kind"] == "name":
         return "%s|name|options=%d|branches=%s" % (clause, len(job["pats"]), ",".join(str(len(p)) for p in job["pats"]))
     spec = job["runs"][n - 1]
-    return "%s|%s|form=%s|via=%s|locs=%d|files=%d" % (clause, job["mode"], spec["form"], spec["via"], len(spec["locs"]), len(job["cases"]))
+    label = ""
+    if job["mode"] == "sweep":
+        label = "|at=" + loc_label(job["cases"][0]["E"], spec["locs"][0])
+    return "%s|%s|via=%s%s" % (clause, job["mode"], spec["via"], label)
+
+
+def loc_label(E, l):
+    """abstract position of a location: kind of the nearest entity at/above the line, '+gap' if not its first line"""
+    if l.get("bare"):
+        return "bare"
+    if l["line"] == 0:
+        return "line0"
+    above = [e for e in E if e["line"] <= l["line"]]
+    if not above:
+        return "above_feature"
+    e = max(above, key=lambda x: x["line"])
+    return e["k"] + ("" if e["line"] == l["line"] else "+gap")
 
 
 def detail(job, row, n):
@@ -458,6 +474,14 @@ def detail(job, row, n):
     return "entities=%s locations=%s form=%s -> %s" % (
         json.dumps([[(e["k"], e["line"], e["par"], e["tag"]) for e in c["E"]] for c in job["cases"]]),
         json.dumps(job["runs"][n - 1]["locs"]), job["runs"][n - 1]["form"], json.dumps(row["runs"][n - 1]))
+
+
+def input_size(job, n):
+    if job["kind"] == "list":
+        return len(job["list"])
+    if job["kind"] == "name":
+        return sum(len(p) for p in job["pats"])
+    return sum(len(c["E"]) for c in job["cases"]) * 10 + len(job["runs"][n - 1]["locs"])
 
 
 def slim(job, n):
@@ -528,10 +552,14 @@ def run(chk):
             distinct.add(json.dumps([j["texts"], j["case"]["items"], j["shift"]], sort_keys=True))
     chk.impl_traces = nruns
     chk.evaluations = nevals
+    found = []
     for i, vs in sorted(verdicts.items()):
         for v in vs:
             j, row, n = jobid[i], byid[i], v[3]
-            chk.violation(v[2], signature(v[2], j, row, n), detail(j, row, n), {"job": slim(j, n)})
+            found.append((input_size(j, n), i, n, v[2]))
+    for _, i, n, clause in sorted(found):          # smallest failing input of every signature first
+        j, row = jobid[i], byid[i]
+        chk.violation(clause, signature(clause, j, row, n), detail(j, row, n), {"job": slim(j, n)})
     for j in (jobs[0], next(x for x in jobs if x["kind"] == "list"), next(x for x in jobs if x["kind"] == "name")):
         row = byid[j["id"]]
         if j["kind"] == "sel":
